@@ -378,26 +378,48 @@ def check_lookup(E, doms):
                     if all(isinstance(parent(x), ast.Subscript) and isinstance(parent(x).ctx, ast.Store) for x in uses):
                         continue
                 readers.setdefault(name, []).append(n)
+    from .c05 import cm_returns
+
+    class _MD:
+        repo, folder = E.repo, E.folder
+
+    def table_keys(v, out):
+        """keys of <hook table>[K] / <hook table>.get(K, ...) inside an abstract value"""
+        if isinstance(v, Sym):
+            if v.op == "index" and isinstance(v.args[0], Sym) and v.args[0].op == "attr" and v.args[0].args[0] == "self" \
+                    and v.args[0].args[-1] in E.store_attrs:
+                out.append(v.args[1])
+            if v.op == "call" and len(v.args) >= 2 and isinstance(v.args[0], Sym) and v.args[0].op == "attr" and v.args[0].args[-1] == "get" \
+                    and isinstance(v.args[0].args[0], Sym) and v.args[0].args[0].op == "attr" and v.args[0].args[0].args[0] == "self" \
+                    and v.args[0].args[0].args[-1] in E.store_attrs:
+                out.append(v.args[1])
+            for a_ in v.args:
+                table_keys(a_, out)
+        elif isinstance(v, (list, tuple)):
+            for a_ in v:
+                table_keys(a_, out)
+
     for name, nodes in sorted(readers.items()):
         f = E.cm.methods[name]
         ctx.analysed(f)
         ctx.count("hook_readers")
-        params = f.params()
-        for n in nodes:
-            p = parent(n)
-            key = None
-            if isinstance(p, ast.Subscript) and p.value is n:
-                key = p.slice
-            elif isinstance(p, ast.Compare) and n in p.comparators and isinstance(p.ops[0], (ast.In, ast.NotIn)):
-                key = p.left
-            elif isinstance(p, ast.Attribute) and p.attr == "get" and isinstance(parent(p), ast.Call) and parent(p).args:
-                key = parent(p).args[0]
-            if key is None:
-                raise AnalysisError("%s: use of the hook table %s outside the fragment" % (f.loc(n), ast.unparse(p)[:60]))
-            ok = isinstance(key, ast.Name) and len(params) > 1 and key.id == params[1]
-            ctx.check("hook-lookup", "ClassManager.%s" % name, ok, f, p,
-                      "ClassManager.%s consults the hook table with %s, not with its own index argument" % (name, ast.unparse(key)), node=n,
-                      detail="%s[%s]: looked up for every caller's index" % (n.attr, ast.unparse(key)))
+        f_, params, vals = cm_returns(_MD, E.cm, name)
+        keys = []
+        for v in vals:
+            table_keys(v, keys)
+        if not keys:
+            raise AnalysisError("ClassManager.%s mentions the hook table but no returned value is looked up in it (shape outside the fragment)" % name)
+        want = Sym("param", params[0]) if params else None
+        for k in keys:
+            ok = k == want
+            if not ok:
+                op = []
+                prov(k, opaque=op)
+                if op:
+                    raise AnalysisError("ClassManager.%s: key of the hook-table lookup is an opaque term (%s)" % (name, op[0]))
+            ctx.check("hook-lookup", "ClassManager.%s" % name, ok, f, "%s: hook table key %s" % (name, show(k)[:50]),
+                      "ClassManager.%s consults the hook table with %s, not with its own index argument" % (name, show(k)[:60]),
+                      detail="hook table looked up with the caller's index")
     E.readers = set(readers)
     if not readers:
         gs = E.cm.lookup("get_string")
@@ -465,23 +487,103 @@ def names_in(e):
     return {x.id for x in ast.walk(e) if isinstance(x, ast.Name)}
 
 
-def post_dominating_reload(f, after_stmt, recv_names):
-    """a statement `<name>.reload()` (name in recv_names) through which every path after_stmt -> EXIT passes"""
-    cfg = CFG(f.node)
-    cands = []
+def _aliases(f, names):
+    """names plus locals that are plain aliases of them (x = name)"""
+    out = set(names)
+    changed = True
+    while changed:
+        changed = False
+        for n in walk_no_nested(f.node):
+            if isinstance(n, ast.Assign) and isinstance(n.value, ast.Name) and n.value.id in out:
+                for t in n.targets:
+                    if isinstance(t, ast.Name) and t.id not in out:
+                        out.add(t.id)
+                        changed = True
+    return out
+
+
+def reload_sites(f, recv_names, depth=0, memo=None):
+    """statements of f that certainly reload one of recv_names: `<name>.reload()` or a call `self.h(..., name, ...)` of a
+    helper of the same class that reloads that parameter on every normal path.  -> [(call node, stmt)]"""
+    memo = memo if memo is not None else {}
+    names = _aliases(f, recv_names)
+    out = []
     for n in walk_no_nested(f.node):
-        if isinstance(n, ast.Call) and isinstance(n.func, ast.Attribute) and n.func.attr == "reload" and not n.args \
-                and isinstance(n.func.value, ast.Name) and n.func.value.id in recv_names:
-            st = enclosing_stmt(n)
-            if st is not None and st in cfg.g:
-                cands.append((n, st))
-    for n, st in cands:
-        if st is after_stmt:
+        if not isinstance(n, ast.Call) or not isinstance(n.func, ast.Attribute):
             continue
-        if cfg.reachable(after_stmt, st) and cfg.every_path_passes(after_stmt, cfg.exit, [st]):
-            # and the reload is not re-ordered before the store on the way: st must not reach after_stmt again
-            return n, True, cands
-    return None, False, cands
+        if n.func.attr == "reload" and not n.args and isinstance(n.func.value, ast.Name) and n.func.value.id in names:
+            out.append((n, enclosing_stmt(n)))
+        elif isinstance(n.func.value, ast.Name) and n.func.value.id == "self" and f.cls is not None and depth < 3:
+            h = f.cls.lookup(n.func.attr)
+            if h is None or h is f:
+                continue
+            hp = h.params()
+            decos = {d.id if isinstance(d, ast.Name) else getattr(d, "attr", None) for d in h.node.decorator_list}
+            off = 0 if "staticmethod" in decos else 1
+            for i, a in enumerate(n.args):
+                if isinstance(a, ast.Name) and a.id in names and i + off < len(hp):
+                    if always_reloads(h, hp[i + off], depth + 1, memo):
+                        out.append((n, enclosing_stmt(n)))
+            if "self" in names and off == 1 and always_reloads(h, "self", depth + 1, memo):
+                out.append((n, enclosing_stmt(n)))
+    return [(n, st) for n, st in out if st is not None]
+
+
+def always_reloads(h, param, depth, memo):
+    key = (h.qualname, param)
+    if key in memo:
+        return memo[key]
+    memo[key] = False
+    sites = reload_sites(h, {param}, depth, memo)
+    if sites:
+        cfg = CFG(h.node)
+        sts = [st for n, st in sites if st in cfg.g]
+        memo[key] = bool(sts) and cfg.every_path_passes(cfg.entry, cfg.exit, sts)
+    return memo[key]
+
+
+def post_dominating_reload(f, after_stmt, recv_names):
+    """every normal path after_stmt -> EXIT passes a statement that reloads one of recv_names (directly or through a helper).
+    -> (a reload call node or None, ok, [(call, stmt)] all reload sites found, verdict detail)
+    When not ok, `undecided` tells whether some path that avoids every reload site still contains a call that mentions the
+    object and could not be resolved (then the absence of a reload is not established)."""
+    cfg = CFG(f.node)
+    sites = [(n, st) for n, st in reload_sites(f, recv_names) if st in cfg.g and st is not after_stmt]
+    sts = [st for n, st in sites]
+    after = [st for st in sts if cfg.reachable(after_stmt, st)]
+    if after and cfg.every_path_passes(after_stmt, cfg.exit, after):
+        return sites[0][0], True, sites
+    return None, False, sites
+
+
+def unresolved_touch(f, after_stmt, recv_names):
+    """a call on a reload-free path after after_stmt that mentions the object and whose effect is unknown (not a getter)"""
+    cfg = CFG(f.node)
+    names = _aliases(f, recv_names)
+    sites = [st for n, st in reload_sites(f, recv_names) if st in cfg.g and st is not after_stmt]
+    for st in cfg.nodes():
+        if st in sites or st is after_stmt:
+            continue
+        if not (cfg.reachable(after_stmt, st, avoiding=sites) and cfg.reachable(st, cfg.exit, avoiding=sites)):
+            continue
+        for n in ast.walk(st) if isinstance(st, ast.AST) else []:
+            if isinstance(n, ast.Call):
+                fn = n.func
+                # the object itself is handed over (a value obtained from one of its getters does not count)
+                mentions = any(isinstance(a, ast.Name) and a.id in names for a in list(n.args) + [k.value for k in n.keywords])
+                recv_is = isinstance(fn, ast.Attribute) and isinstance(fn.value, ast.Name) and fn.value.id in names
+                if recv_is and (fn.attr.startswith("get_") or fn.attr in ("reload",)):
+                    continue
+                if isinstance(fn, ast.Attribute) and isinstance(fn.value, ast.Name) and fn.value.id == "self" and f.cls is not None \
+                        and f.cls.lookup(fn.attr) is not None:
+                    continue  # same-class helper: already resolved by reload_sites
+                if isinstance(fn, ast.Name) and fn.id in ("setattr", "delattr", "getattr", "isinstance", "len", "str", "repr", "print"):
+                    continue
+                if isinstance(fn, ast.Attribute) and dotted(fn) and dotted(fn).split(".")[0] in ("logger", "bytecode", "logging"):
+                    continue
+                if mentions or recv_is:
+                    return n
+    return None
 
 
 def check_pairing(E):
@@ -540,6 +642,11 @@ def check_pairing(E):
                             node, ok = n, True
         if not ok and want == {item_param} and self_reload.get(w):
             ok = True  # the hooked object is the item itself and its set_name reloads it right after this call
+        if not ok:
+            u = unresolved_touch(f, st, want)
+            if u is not None:
+                raise AnalysisError("ClassManager.%s: on a path without reload() the hooked item is handed to `%s`, whose effect is not known" % (
+                    w, ast.unparse(u)[:60]))
         ctx.count("pairings")
         ctx.check("reload-pairing", "ClassManager.%s" % w, ok, f, "%s: reload() of the hooked id item after the hook write" % w,
                   "after storing the new %s name, ClassManager.%s does not call reload() on %s on every normal path: the cached name of the id item stays stale "
@@ -565,6 +672,11 @@ def check_pairing(E):
         st = enclosing_stmt(c)
         node, ok, cands = post_dominating_reload(f, st, {"self"})
         ok = ok or reloaded_param.get(w, False)
+        if not ok:
+            u = unresolved_touch(f, st, {"self"})
+            if u is not None and u is not c:
+                raise AnalysisError("%s.set_name: on a path without self.reload() the item is handed to `%s`, whose effect is not known" % (
+                    cname, ast.unparse(u)[:60]))
         ctx.count("pairings")
         ctx.check("reload-pairing", "%s.set_name reloads itself" % cname, ok, f, "%s.set_name: self.reload() after the hook call" % cname,
                   "%s.set_name does not reload itself after ClassManager.%s (and %s does not reload its item argument): "
@@ -678,11 +790,30 @@ def check_exposure(E, doms):
                     and item_param in receivers(n0.value) | names_in(n0.value) and isinstance(n0.value, ast.Call):
                 if any(isinstance(a, ast.Call) and _root(a) == item_param for a in n0.value.args):
                     own.add(n0.targets[0].id)
-        for n in walk_no_nested(f.node):
-            if not (isinstance(n, ast.Call) and isinstance(n.func, ast.Attribute) and n.func.attr == "reload" and not n.args):
-                continue
+        w_func = f
+        sites = []   # (reload call node, function it is in, names that denote the renamed item there)
+
+        def collect(fn_, own_, depth_):
+            for n_ in walk_no_nested(fn_.node):
+                if not (isinstance(n_, ast.Call) and isinstance(n_.func, ast.Attribute)):
+                    continue
+                if n_.func.attr == "reload" and not n_.args:
+                    sites.append((n_, fn_, own_))
+                elif isinstance(n_.func.value, ast.Name) and n_.func.value.id == "self" and depth_ < 3:
+                    h = E.cm.lookup(n_.func.attr)
+                    if h is None or h is fn_ or h.name in WRITERS:
+                        continue
+                    hp = h.params()
+                    decos = {d.id if isinstance(d, ast.Name) else getattr(d, "attr", None) for d in h.node.decorator_list}
+                    off = 0 if "staticmethod" in decos else 1
+                    own_h = {hp[i + off] for i, a in enumerate(n_.args) if isinstance(a, ast.Name) and a.id in own_ and i + off < len(hp)}
+                    collect(h, own_h, depth_ + 1)
+
+        collect(f, own, 0)
+        for n, f, own_here in sites:
+            types = cg.local_types(f)
             recv = n.func.value
-            if isinstance(recv, ast.Name) and recv.id in own:
+            if isinstance(recv, ast.Name) and recv.id in own_here:
                 continue  # the renamed item / the id item whose name was hooked
             # what is reloaded?
             label = None
@@ -712,7 +843,7 @@ def check_exposure(E, doms):
                     raise AnalysisError("%s: %s has no reload()" % (f.qualname, c.name))
                 reads |= set(r)
             ctx.count("exposure_pairs")
-            ctx.check("aliasing-exposure", "%s reloads %s" % (w, label), not reads, f, "%s reloads %s" % (w, label),
+            ctx.check("aliasing-exposure", "%s reloads %s" % (w, label), not reads, w_func, "%s reloads %s" % (w, label),
                       "while renames are keyed by string index (%s), ClassManager.%s re-resolves %s through the hook table (%s via %s): every item of that "
                       "set that merely shares a name string with a previously renamed item takes over that name although it was never renamed" % (
                           ", ".join(coarse), w, label, "/".join(c.name for c in tys) + ".reload()", ", ".join("cm.%s" % a for a in sorted(reads))),
